@@ -62,6 +62,7 @@ var entryDefs = []entryDef{
 	{"Parse", "(*" + pktPath + ".Session).Parse", "Parse.fast,Parse.slow"},
 	{"Notify", "(*" + pktPath + ".Session).Notify", "Notify,Notify.dhcp"},
 	{"DHCPv4Update", "(*" + pktPath + ".Session).DHCPv4Update", "DHCPv4Update"},
+	{"ReadFrom", "(*" + pktPath + ".Session).ReadFrom", "ReadFrom"},
 	{"purge", "(*" + pktPath + ".Session).purge", "purge"},
 	{"purge.probe", "(*" + pktPath + ".Session).purge#1", "purge.probe"},
 	{"nicMonitor", "(" + pktPath + ".Config).NewSession#1", "nicMonitor"},
